@@ -39,6 +39,11 @@ type RawTS struct {
 type RawPriv struct {
 	Pool string
 	Form string
+	// Form "pem-file": Any(keyspb.PEMKeyFile{path, password}) - the reference to a key file every
+	// configuration shipped with the repository uses; well-formed for validation (the file is only read
+	// when the signer is built)
+	Path     string `json:",omitempty"`
+	Password string `json:",omitempty"`
 }
 
 // RawPub describes the public_key message. Mut "" = SPKI of the pool key; "empty" = no DER bytes;
@@ -122,6 +127,12 @@ func anyOf(p *RawPriv) *anypb.Any {
 	switch p.Form {
 	case "der":
 		return ctfex.PrivKeyAny(keys.Get(p.Pool))
+	case "pem-file":
+		a, err := anypb.New(&keyspb.PEMKeyFile{Path: p.Path, Password: p.Password})
+		if err != nil {
+			panic(err)
+		}
+		return a
 	case "unknown-type":
 		return &anypb.Any{TypeUrl: "type.googleapis.com/verif.NoSuchKeyType", Value: keys.Get(p.Pool).PKCS8}
 	case "bad-value":
